@@ -28,6 +28,7 @@ TRUSTED = [
 ]
 
 NPROC = 8
+READ_TIMEOUT = 15.0
 VARIANTS = {"open": ["pre", "post"], "write": ["pre", "short", "post"], "close": ["post"], "mkdir": ["pre", "post"]}
 
 
@@ -111,10 +112,6 @@ def fresh_read(root, rec=None):
 
 
 # ---------------------------------------------------------------------------------------------
-class _TornSummary(Exception):
-    pass
-
-
 def run_scenario(arg):
     """Worker: everything that touches the real code for one scenario.  Returns plain data."""
     sc, scratch, tier, only = arg
@@ -124,9 +121,26 @@ def run_scenario(arg):
         pristine, work, alone = (os.path.join(base, x) for x in ("pristine", "work", "alone"))
         os.makedirs(base)
         do_write(pristine, sc, sc["frame0"], sc["offsets0"], False)
-        for pr in sc["prior"]:
-            do_write(pristine, sc, pr["frame"], pr["offsets"], True)
         pf0, old_vals = fresh_read(pristine)
+        for i, pr in enumerate(sc["prior"]):
+            # the earlier appends are appends under test, too (fault-free): each must add exactly its rows
+            al = os.path.join(base, "alone%d" % i)
+            do_write(al, sc, pr["frame"], pr["offsets"], False)
+            _, pv = fresh_read(al)
+            want = dsfs.cat_values(old_vals, pv)
+            raised = None
+            try:
+                do_write(pristine, sc, pr["frame"], pr["offsets"], True)
+            except BaseException as e:            # noqa
+                raised = "%s: %s" % (type(e).__name__, str(e)[:200])
+            st, val = dsfs.guarded(lambda: fresh_read(pristine)[1], READ_TIMEOUT)
+            if raised is not None or st != "ok" or val != want:
+                out["setup_failure"] = {"step": i, "raised": raised,
+                                        "read": ("other" if st == "ok" else st), "read_detail": (None if st == "ok" else val),
+                                        "rows_expected": len(want[0][1]), "rows_read": (len(val[0][1]) if st == "ok" and val else None)}
+                return out
+            old_vals = want
+        pf0, _ = fresh_read(pristine)
         refs = dsfs.refs_of(pf0)
         do_write(alone, sc, sc["frame1"], sc["offsets1"], False)
         _, new_vals = fresh_read(alone)
@@ -145,24 +159,29 @@ def run_scenario(arg):
                     raised = "%s: %s" % (type(e).__name__, str(e)[:200])
             r = {"k": k, "variant": variant, "raised": raised, "fired": rec.fired, "ncalls": rec.n,
                  "trace": rec.trace, "kinds": rec.kinds, "bypassed": rec.bypassed}
-            rr = dsfs.Recorder(work)
-            try:
-                if raised is not None and rec.fired is not None and rec.fired[2] == dsfs.MD and dsfs.md_open_index(rec.trace) is not None:
-                    # _metadata was write-opened and the failing call names it: the summary IS being rewritten (outside the property) and may be
-                    # torn; fastparquet's thrift reader can spin forever on a torn footer (seen: notes/C19.md), so no fresh open here
-                    raise _TornSummary()
+            def reader():
+                rr = dsfs.Recorder(work)
                 with rr:
                     pf, vals = fresh_read(work, rr)
-                r["read"] = "old" if vals == old_vals else ("new" if vals == want_new else "other")
-                if r["read"] == "other":
-                    r["read_detail"] = {"rows": len(vals[0][1]) if vals else 0, "refs": dsfs.refs_of(pf)[-6:]}
-                r["read_opens"] = sorted(set(x for x in rr.reads if x not in ("",)))
-                r["refs_after"] = dsfs.refs_of(pf)
-            except _TornSummary:
+                return vals, dsfs.refs_of(pf), sorted(set(x for x in rr.reads if x not in ("",)))
+
+            if raised is not None and rec.fired is not None and rec.fired[2] == dsfs.MD and dsfs.md_open_index(rec.trace) is not None:
+                # _metadata was write-opened and the failing call names it: the summary IS being rewritten (outside the
+                # property) and may be torn; nothing is claimed about such a state, so it is not opened
                 r["read"] = "not-read(fault inside the rewrite of _metadata)"
-            except BaseException as e:           # noqa
-                r["read"] = "unreadable"
-                r["read_detail"] = "%s: %s" % (type(e).__name__, str(e)[:200])
+            else:
+                # the native readers can spin forever on torn files (notes/C19.md): read in a child that can be killed
+                st, val = dsfs.guarded(reader, READ_TIMEOUT)
+                if st == "ok":
+                    vals, refs_after, read_opens = val
+                    r["read"] = "old" if vals == old_vals else ("new" if vals == want_new else "other")
+                    if r["read"] == "other":
+                        r["read_detail"] = {"rows": len(vals[0][1]) if vals else 0, "refs": refs_after[-6:]}
+                    r["read_opens"] = read_opens
+                    r["refs_after"] = refs_after
+                else:
+                    r["read"] = "unreadable" if st == "exc" else st
+                    r["read_detail"] = val
             snap1 = dsfs.snapshot(work)
             r["changed_old"] = sorted(p for p in snap0 if p not in (dsfs.MD, dsfs.CMD) and snap1.get(p) != snap0[p])
             r["md_same"] = snap1.get(dsfs.MD) == snap0[dsfs.MD]
@@ -178,9 +197,14 @@ def run_scenario(arg):
         out["runs"].append(b)
         n = b["ncalls"]
         kinds = b["kinds"]
+        hangs = 0
         for k in range(1, n + 1):
             for v in VARIANTS[kinds[k - 1]]:
                 out["runs"].append(one(k, v, False))
+                hangs += out["runs"][-1]["read"] in ("hang", "died")
+            if hangs >= 3:          # every one of them is reported; do not spend the budget waiting for more of the same
+                out["cut_short_after_hangs"] = k
+                break
     except BaseException:                         # noqa
         out["error"] = traceback.format_exc()[-3000:]
     finally:
@@ -206,7 +230,12 @@ def judge(sc, res, r):
         if r["read"] != "new":
             problems.append(("returned-but-not-new-content",
                              "append returned normally but a fresh open reads %s content (%s)" % (r["read"], r.get("read_detail"))))
-    elif phase == "before_md":
+    elif phase == "before_md" or (r["fired"] and r["fired"][2] not in (dsfs.MD, dsfs.CMD)):
+        # the failing call came before any write-open of _metadata, or it names a part file / directory (the append was
+        # still writing data, so by "parts first, summary last" the summary must not have been touched yet)
+        if phase != "before_md":
+            problems.append(("data-call-after-summary-rewrite-started",
+                             "call %s on %s was issued after _metadata had been opened for writing" % (r["fired"][1], r["fired"][2])))
         if r["read"] != "old":
             problems.append(("failed-before-metadata-but-content-changed",
                              "append raised (%s) before _metadata was opened for writing, but a fresh open reads %s (%s)" % (
@@ -250,6 +279,16 @@ def run(ctx):
         sc = by_id[res["id"]]
         if res["error"]:
             raise RuntimeError("scenario %d failed in the harness:\n%s" % (res["id"], res["error"]))
+        if res.get("setup_failure"):
+            sf = res["setup_failure"]
+            ctx.case({"sc": sc["id"], "k": None, "v": "prior-append", "f": sc["frame1"], "p": sc["partition_on"]})
+            ctx.fail({"component": "write_multi.append", "symptom": "returned-but-not-new-content" if sf["raised"] is None else "fault-free-append-raised",
+                      "phase": "fault-free", "fault_kind": None, "variant": "prior-append"},
+                     {"scenario": sc, "k": None, "variant": "prior-append", "observed": sf},
+                     "fault-free append number %d of the scenario %s, and a fresh open then reads %s (%s rows, expected %s) %s" % (
+                         sf["step"] + 1, "raised " + sf["raised"] if sf["raised"] else "returned normally", sf["read"], sf["rows_read"],
+                         sf["rows_expected"], sf["read_detail"] or ""))
+            continue
         ctx.count("partition_columns", len(sc["partition_on"]))
         ctx.count("new_row_groups", sc["new_parts"])
         ctx.count("prior_appends", len(sc["prior"]))
@@ -311,6 +350,9 @@ def replay(rep):
         res = run_scenario((sc, tmp, "quick", (case["k"], case["variant"])))
         if res["error"]:
             print(res["error"])
+            return 1
+        if res.get("setup_failure"):
+            print("PROPERTY FAILS in a fault-free append while building the scenario: %s" % json.dumps(res["setup_failure"]))
             return 1
         r = res["runs"][0]
         phase, problems = judge(sc, res, r)
